@@ -4,7 +4,7 @@
    (AES-256 in the code), so it holds whatever AES computes; all passwords, all 12-byte nonces,
    all messages / byte strings; no size bound other than gcm.Seal's own limit max_plain. *)
 From Common Require Import Bytes Outcome Blake2b.
-From C37 Require Import ModelAes Model Proofs.
+From C37 Require Import ModelAes Model Proofs ProofsGhash.
 Local Open Scope N_scope.
 
 (* Encrypt then Decrypt with the same password returns the message; the ciphertext is
@@ -97,6 +97,36 @@ Theorem C37_other_password : forall cipher pw pw' nonce msg ct,
     then Ok (ctr (cipher (key_of pw')) nonce c) else Err 1.
 Proof. exact decrypt_other_password. Qed.
 Print Assumptions C37_other_password.
+
+(* What "tag collision" means under ONE key (modifications of a stored ciphertext, right
+   password).  gf_mul is linear over xor in its first argument, so GHASH is linear in the blocks;
+   the mask E(nonce || 1) cancels: two bodies have the same tag iff their GHASH values agree, and
+   for bodies of equal length iff GHASH of the blockwise difference (then a zero block) is 0 - the
+   error polynomial vanishes at the hash key H = E(0^128).  Consequently a stored ciphertext whose
+   body is replaced by any other body of the same length (any pattern of bit flips or byte
+   substitutions; tag and nonce kept) is accepted exactly when that GHASH is zero, else refused.
+   No field law of GF(2^128) is proved: that a non-zero difference has a non-zero GHASH for all but
+   few H remains the cryptographic assumption.  (Under ANOTHER key, C37_other_password, the two
+   masks differ and no such reduction exists: there the condition is the equality of the two tags.) *)
+Theorem C37_tag_collision_same_key : forall E nonce c c',
+  (tag E nonce c = tag E nonce c' <-> ghash (hkey E) (ghash_input c) = ghash (hkey E) (ghash_input c'))
+  /\ (length c = length c' ->
+      (tag E nonce c = tag E nonce c' <-> ghash (hkey E) (delta_input c c') = 0)).
+Proof. intros E nonce c c'. split; [exact (tag_eq_iff E nonce c c') | exact (tag_eq_iff_delta E nonce c c')]. Qed.
+Print Assumptions C37_tag_collision_same_key.
+
+Theorem C37_same_length_body : forall cipher pw nonce msg ct c',
+  encrypt cipher pw nonce msg = Ok ct -> length c' = length msg ->
+  let K := cipher (key_of pw) in
+  let c := ctr K nonce msg in
+  decrypt cipher pw (nonce ++ c' ++ tag K nonce c) =
+    if ghash (hkey K) (delta_input c' c) =? 0 then Ok (ctr K nonce c') else Err 1.
+Proof. exact decrypt_same_length_body. Qed.
+Print Assumptions C37_same_length_body.
+
+Theorem C37_gf_mul_linear : forall x y h, gf_mul (N.lxor x y) h = N.lxor (gf_mul x h) (gf_mul y h).
+Proof. exact gf_mul_linear. Qed.
+Print Assumptions C37_gf_mul_linear.
 
 (* DecryptPrivateKey (Decrypt, then helpers.go:DecodePrivateKey of the scheme) never crashes:
    any bytes, any password, any scheme.  Needs fixes/C37-secp256k1-decode-invalid-scalar.patch
@@ -238,3 +268,18 @@ Example C37_in_place_loses_the_key :
   | _ => False
   end.
 Proof. vm_compute. repeat split; try reflexivity. discriminate. Qed.
+
+(* one flipped body bit of the "helloworld" ciphertext: the GHASH of the difference is not zero,
+   the modified ciphertext is refused; the unmodified body gives GHASH 0 and is accepted *)
+Example C37_same_length_body_nonvacuous :
+  let pw := map n2b [110;111;111;116] in
+  let msg := map n2b [104;101;108;108;111;119;111;114;108;100] in
+  let nonce := map n2b [1;2;3;4;5;6;7;8;9;10;11;12] in
+  let K := aes256 (key_of pw) in
+  let c := ctr K nonce msg in
+  let c' := flip_bit c 3 5 in
+  (ghash (hkey K) (delta_input c' c) =? 0) = false /\
+  decrypt aes256 pw (nonce ++ c' ++ tag K nonce c) = Err 1 /\
+  (ghash (hkey K) (delta_input c c) =? 0) = true /\
+  decrypt aes256 pw (nonce ++ c ++ tag K nonce c) = Ok msg.
+Proof. vm_compute. repeat split; reflexivity. Qed.
